@@ -1,5 +1,5 @@
-(* Run/RunSlot.v — runner entry point for C01 (long-form fragment, one command):
-   il <flag names> <flag kinds b c s l o> <words> cur  ->  the slot *)
+(* Run/RunSlot.v — runner entry point for C01 (one command):
+   il <flag names> <flag kinds b c s l o> <shorthands> <words> cur  ->  the slot *)
 From CV Require Import Base.Str Model.Pflag Run.Fields.
 Local Open Scope nat_scope.
 
@@ -9,10 +9,10 @@ Definition kind_of (k : str) : kind :=
               else if beq c (byte 115) then KStr else if beq c (byte 108) then KList else KOpt
   | [] => KOpt
   end.
-Fixpoint zip_flags (ns ks : list str) : list flag :=
-  match ns, ks with
-  | n :: ns', k :: ks' => mkFlag n (kind_of k) :: zip_flags ns' ks'
-  | _, _ => []
+Fixpoint zip_flags (ns ks ss : list str) : list flag :=
+  match ns, ks, ss with
+  | n :: ns', k :: ks', s :: ss' => mkFlag n (kind_of k) s :: zip_flags ns' ks' ss'
+  | _, _, _ => []
   end.
 Definition p_slot (s : slot) : list str :=
   match s with
@@ -31,8 +31,12 @@ Definition run_slot (c : list str) : list str :=
       match f_list rest1 with
       | Some (ks, rest2) =>
         match f_list rest2 with
-        | Some (ws, [cur]) => f_ok :: p_slot (traverse (zip_flags ns ks) (f_true il) ws cur)
-        | _ => fbad
+        | Some (ss, rest3) =>
+          match f_list rest3 with
+          | Some (ws, [cur]) => f_ok :: p_slot (traverse (zip_flags ns ks ss) (f_true il) ws cur)
+          | _ => fbad
+          end
+        | None => fbad
         end
       | _ => fbad
       end
